@@ -848,6 +848,13 @@ impl<'a> Message<'a> {
                 // Same rule as in `Signature::verify`: v6 keys only make v6 signatures (and vice versa)
                 Signature::check_signature_key_version_alignment(key, config)?;
 
+                // ... and the key must be the one the signature names as its issuer (if it names one)
+                ensure!(
+                    Signature::match_identity(signature, key),
+                    "verify: No matching issuer_key_id or issuer_fingerprint for Key ID: {:?}",
+                    &key.legacy_key_id(),
+                );
+
                 // Check that the high 16 bits of the hash from the signature packet match with the hash we
                 // just calculated.
                 //
